@@ -30,6 +30,20 @@ pub const VALUE_PATHS: [LookupPath; 14] = [
     LookupPath::FindBorrowWild,
 ];
 
+/// Archetype-level accessors that take a dynamically typed key: handed a key of ANOTHER archetype
+/// they must reject it (C01 / C09: an accepted handle designates the entity it was issued for).
+pub const ARCH_LEVEL_DYN_PATHS: [LookupPath; 9] = [
+    LookupPath::AContains,
+    LookupPath::AToDirect,
+    LookupPath::AResolve,
+    LookupPath::AResolveSlices,
+    LookupPath::AResolveBorrowSlices,
+    LookupPath::AResolveAllSlices,
+    LookupPath::AView,
+    LookupPath::AViewComp,
+    LookupPath::ABorrow,
+];
+
 pub const BOOL_PATHS: [LookupPath; 5] = [
     LookupPath::WContains,
     LookupPath::AContains,
@@ -398,6 +412,7 @@ impl<'c, W: WorldDriver> Session<'c, W> {
                 }
             }
         }
+        self.probe_foreign_archetype(si, a, Key::Any(rec.raw), hi, full, "C01")?;
         let mut minted: Option<(gecs::prelude::EntityDirectAny, bool, Option<usize>)> = None;
         for (path, k) in paths {
             let mut key = keys[k];
@@ -516,6 +531,35 @@ impl<'c, W: WorldDriver> Session<'c, W> {
                     }
                 }
             }
+        }
+        self.probe_foreign_archetype(si, a, Key::DirAny(rec.d), di, intensity == Intensity::Full, "C09")?;
+        Ok(())
+    }
+
+    /// A dynamically typed key of archetype `a` handed to the archetype-level accessors of another
+    /// archetype must be rejected, whatever the two archetypes' versions and contents are.
+    pub fn probe_foreign_archetype(&mut self, si: usize, a: usize, key: Key, salt: usize, full: bool, tag: &'static str) -> R {
+        let n = self.infos.len();
+        if n < 2 {
+            return Ok(());
+        }
+        let r = self.rot.wrapping_add(salt.wrapping_mul(3));
+        let b = (a + 1 + r % (n - 1)) % n;
+        let paths: Vec<LookupPath> = if full { ARCH_LEVEL_DYN_PATHS.to_vec() } else { vec![ARCH_LEVEL_DYN_PATHS[r % ARCH_LEVEL_DYN_PATHS.len()]] };
+        for path in paths {
+            let res = catch(|| W::lookup(&mut self.sims[si].w, b, path, key));
+            self.count("foreign_archetype_lookups", 1);
+            match res {
+                Ok(None) => {}
+                Ok(Some(o)) => {
+                    self.label("foreign_archetype_accepted");
+                    return Err(self.fail(&[tag], "accepted-by-foreign-archetype", format!("{:?} of archetype {} accepted the {} {:?} that was issued by archetype {} (it reached {:?})", path, self.infos[b].name, key.kind_name(), key, self.infos[a].name, o.raw)));
+                }
+                Err(m) => return Err(self.fail(&[tag], "foreign-archetype-lookup-panic", format!("{:?} of archetype {} panicked on the {} {:?} issued by archetype {}: {}", path, self.infos[b].name, key.kind_name(), key, self.infos[a].name, m))),
+            }
+        }
+        if self.sims[si].archs[b].live.len() > 0 {
+            self.label("foreign_archetype_probe_nonempty");
         }
         Ok(())
     }
